@@ -189,6 +189,29 @@ func (c c05Case) runFile(viol func(sig, detail string), r *core.Run) {
 			}
 		}
 	}
+	// reads positioned at or past the end: the range is empty, nothing is needed
+	for _, pos := range []struct {
+		off    int64
+		whence int
+		label  string
+	}{{L, io.SeekStart, "Seek(L,Start)"}, {0, io.SeekEnd, "Seek(0,End)"}, {L + 1, io.SeekStart, "Seek(L+1,Start)"}, {2, io.SeekEnd, "Seek(2,End)"}} {
+		rs, _ := lb.AsLargeBytes()
+		s.ResetLogs()
+		_, err := rs.Seek(pos.off, pos.whence)
+		n := 0
+		if err == nil {
+			n, err = rs.Read(make([]byte, 4))
+		}
+		if r != nil {
+			r.Transitions.Add(1)
+		}
+		if n != 0 || err != io.EOF {
+			viol("read-at-eof", fmt.Sprintf("%s: %s then Read = (%d, %v), want (0, EOF)", c, pos.label, n, err))
+		}
+		if got := s.Reads(); len(got) > 0 {
+			viol("over-fetch at-eof "+c.File.Writer, fmt.Sprintf("%s: %s then Read requested %s although no byte lies at or after that offset", c, pos.label, shortList(got)))
+		}
+	}
 	ssb := sb.NewSelectorSpecBuilder(basicnode.Prototype.Any)
 	for a := int64(0); a < L; a++ {
 		for b := a + 1; b <= L; b++ {
